@@ -1193,6 +1193,78 @@ func (t *tr) stmts(list []ast.Stmt, k cont, ind string, inLoop bool) string {
 			unsup("range over %s", t.typeOf(x.X).String())
 		}
 		return ind + "let " + tup + " := " + head + tup + " (fun " + tup + " " + kname + " " + vname + " =>\n" + reindent(body, ind, ind+"    ") + ind + "  )\n" + rest()
+	case *ast.SwitchStmt:
+		// `switch [init;] [tag] { case a, b: …; default: … }` without fallthrough: an if / else-if chain in clause order
+		pre := ""
+		if x.Init != nil {
+			pre = t.stmts([]ast.Stmt{x.Init}, func(string) string { return "" }, ind, inLoop)
+		}
+		var tag string
+		var tagBasic bool
+		if x.Tag != nil {
+			tag = t.expr(x.Tag)
+			_, tagBasic = t.typeOf(x.Tag).Underlying().(*types.Basic)
+			if !tagBasic {
+				unsup("switch on a value of type %s", t.typeOf(x.Tag).String())
+			}
+		}
+		type clause struct {
+			cond string
+			body []ast.Stmt
+		}
+		clauses := []clause{}
+		var deflt []ast.Stmt
+		hasDefault := false
+		for _, cs := range x.Body.List {
+			cc := cs.(*ast.CaseClause)
+			body := cc.Body
+			for _, b := range body {
+				if br, ok := b.(*ast.BranchStmt); ok && br.Tok == token.FALLTHROUGH {
+					unsup("fallthrough")
+				}
+			}
+			// a trailing plain `break` just ends the clause
+			if n := len(body); n > 0 {
+				if br, ok := body[n-1].(*ast.BranchStmt); ok && br.Tok == token.BREAK && br.Label == nil {
+					body = body[:n-1]
+				}
+			}
+			ast.Inspect(&ast.BlockStmt{List: body}, func(m ast.Node) bool {
+				switch y := m.(type) {
+				case *ast.BranchStmt:
+					if y.Tok == token.BREAK {
+						unsup("break inside a switch clause")
+					}
+				case *ast.ForStmt, *ast.RangeStmt, *ast.SwitchStmt, *ast.SelectStmt, *ast.FuncLit:
+					return false
+				}
+				return true
+			})
+			if cc.List == nil {
+				hasDefault = true
+				deflt = body
+				continue
+			}
+			conds := []string{}
+			for _, e := range cc.List {
+				if x.Tag != nil {
+					conds = append(conds, "(decide ("+tag+" = "+t.expr(e)+"))")
+				} else {
+					conds = append(conds, t.expr(e))
+				}
+			}
+			clauses = append(clauses, clause{"(" + strings.Join(conds, " || ") + ")", body})
+		}
+		_ = hasDefault
+		var chain func(i int, ind2 string) string
+		chain = func(i int, ind2 string) string {
+			if i == len(clauses) {
+				return t.stmts(deflt, func(ind3 string) string { return t.stmts(list[1:], k, ind3, inLoop) }, ind2, inLoop)
+			}
+			thenS := t.stmts(clauses[i].body, func(ind3 string) string { return t.stmts(list[1:], k, ind3, inLoop) }, ind2+"  ", inLoop)
+			return ind2 + "if " + clauses[i].cond + " then\n" + thenS + ind2 + "else\n" + chain(i+1, ind2+"  ")
+		}
+		return pre + chain(0, ind)
 	case *ast.SendStmt:
 		if b, ok := t.typeOf(x.Value).Underlying().(*types.Basic); !ok || b.Info()&types.IsString == 0 {
 			unsup("send of a non-string value")
